@@ -16,7 +16,13 @@ const (
 	numTopos
 )
 
-var topoNames = []string{"direct", "proxy", "demux", "proxy+demux"}
+// TopoWS: direct, but every connection is the library's own WebSocket transport
+// (goat.NewGoatOverWebsocket over real coder/websocket code on an in-memory pipe)
+// on both sides, with no harness link in between: no wire taps, no link faults; the
+// RPC-level oracles apply unchanged. Not among the kinds drawn by g.IntN(numTopos).
+const TopoWS = numTopos
+
+var topoNames = []string{"direct", "proxy", "demux", "proxy+demux", "websocket"}
 
 // TopoSpec is the drawn topology of a run.
 type TopoSpec struct {
@@ -106,6 +112,20 @@ func Build(e *Env, spec TopoSpec, srv *goat.Server, copts func(i int) []goat.Dia
 			sr.ClientEnd = a
 			n.CEnds = append(n.CEnds, a)
 			n.CCs = append(n.CCs, goat.NewClientConn(a, clientName(i), ServerID, opts(i)...))
+		}
+	case TopoWS:
+		for i := 0; i < spec.Clients; i++ {
+			c, s, ok := wsPair(e, true)
+			if !ok {
+				e.Note("ws.setup.failed")
+				a, b := e.NewConn(fmt.Sprintf("c%d", i), LinkCfg{Cap: -1}, LinkCfg{Cap: -1})
+				sr := n.startServe(fmt.Sprintf("serve%d", i), b)
+				sr.ClientEnd = a
+				n.CCs = append(n.CCs, goat.NewClientConn(a, clientName(i), ServerID, opts(i)...))
+				continue
+			}
+			n.startServe(fmt.Sprintf("serve%d", i), goat.NewGoatOverWebsocket(s))
+			n.CCs = append(n.CCs, goat.NewClientConn(goat.NewGoatOverWebsocket(c), clientName(i), ServerID, opts(i)...))
 		}
 	case TopoProxy:
 		// clients and one server connection per client are all attached to one
